@@ -40,6 +40,10 @@ CORR = {"mismatch_accepted": corrupt_accept, "failed_call_kept_funds": corrupt_f
 
 
 def fn_leg(acc, srv, rng, n):
+    from ..core import dropped_groups
+    if "fn_asset" in dropped_groups():
+        acc.count("fn_leg_skipped_adapter_built_without_fn_asset")
+        return
     cases = []
     for _ in range(n):
         kind = "native" if rng.random() < 0.85 else "token"
